@@ -64,15 +64,10 @@ def run(eng, rep, tier):
                   site=site_of(prog, guard, guard.node))
     init = prog.functions[CYK + ".__init__"]
     # on the guard's false branch the full-span cell is defined
-    defined = False
-    for sub in ast.walk(init.node):
-        if isinstance(sub, ast.If) and "_generates_all_terminals" in ast.unparse(sub.test):
-            neg = isinstance(sub.test, ast.UnaryOp) and isinstance(sub.test.op, ast.Not)
-            branch = sub.body if neg else sub.orelse
-            for st in branch:
-                if isinstance(st, ast.Assign) and any(isinstance(tg, ast.Subscript) and "_cyk_table" in ast.unparse(tg.value)
-                                                       and "len(self._word)" in ast.unparse(tg.slice) for tg in st.targets):
-                    defined = True
+    si = interp.run_entry(init, CYK)
+    defined = any(ev.kind == "write" and ev.wkind == "subscript" and ev.recv is not None and
+                  ("self", ("_cyk_table",)) in ev.recv.alias and has_fact(ev.facts, "_generates_all_terminals()", False)
+                  and ev.args and ("self", ("_word",)) in deps_of(ev.args[0]) for ev in si.events)
     ob.decide("R6", "C08.1", init, "full-span-cell-defined-when-unknown-terminal", defined,
               "when a terminal is unknown the full-span cell is set (to the empty set) before generate_word reads it",
               "with an unknown terminal the full-span cell is never defined: generate_word raises KeyError", None,
